@@ -184,6 +184,39 @@ class Rig(object):
         self.dlc_b.append(b)
         return a, b
 
+    def add_dlc_rawpeer(self, a_listens, peer_miu, peer_rw):
+        """A data link connection whose other end is a raw access point on B that announces `peer_miu` - possibly
+        more than the link MIU, which connect()/accept() must clip (llc.py:787-789, 815-817)."""
+        rb = nfc.llcp.Socket(self.B, RAW)
+        rb.bind(50 + len(self.dlc_a))
+        rb._tco.setsockopt(nfc.llcp.SO_RCVBUF, 100)
+        ra = rb.getsockname()
+        if a_listens:
+            lst = nfc.llcp.Socket(self.A, DLC)
+            lst.bind(44 + len(self.dlc_a))
+            lst.listen(1)
+            rb.send(pdu_mod.Connect(lst.getsockname(), ra, miu=peer_miu, rw=peer_rw), DONTWAIT)
+            for _ in range(2):
+                self.back()
+            a = lst.accept()
+            self.touched = True
+        else:
+            a = nfc.llcp.Socket(self.A, DLC)
+            call = Call(a.connect, ra)
+            wait_for(lambda: len(a._tco.send_queue) > 0 or call.done, "CONNECT queued")
+            self.waiters.append((call, a._tco, "CONNECT"))
+            self.touched = True
+            self.collect()
+            rb.send(pdu_mod.ConnectionComplete(a.getsockname(), ra, miu=peer_miu, rw=peer_rw), DONTWAIT)
+            for _ in range(2):
+                self.back()
+            call.join()
+            if call.error is not None:
+                raise HarnessError("connect to raw peer failed: %r" % (call.error,))
+        self.dlc_a.append(a)
+        self.dlc_b.append(None)
+        return a
+
     # ---- frames ---------------------------------------------------------------------------
     def collect(self):
         """The real collect() on A, recorded; then the frame is dispatched at B, recorded."""
@@ -303,6 +336,8 @@ class Rig(object):
     def ack_state(self, i):
         """B sends on connection i, A receives and reads: an acknowledgement becomes pending at A."""
         a, b = self.dlc_a[i], self.dlc_b[i]
+        if b is None:
+            return
         if not (a._tco.state.ESTABLISHED and b._tco.state.ESTABLISHED) or b._tco.send_window_slots == 0:
             return
         try:
@@ -455,6 +490,9 @@ def scenario(seed, klass, miu=None):
                         R.dlc_b.append(cli)
                     else:
                         R.add_dlc(False, rw_a, rw_b, m_a, m_b, name=rnd.choice([None, "urn:nfc:sn:svc%d" % i]))
+            if rnd.random() < 0.5:
+                R.add_dlc_rawpeer(rnd.random() < 0.5, rnd.choice([128, miu - 1, miu, miu + 1, 2175, 2175]),
+                                  rnd.choice([1, 2, 15]))
             if rnd.random() < 0.6:
                 R.add_ldl()
             for step in range(rnd.randint(6, 16)):
@@ -524,6 +562,9 @@ def scenario(seed, klass, miu=None):
                 else:
                     R.collect()
             R.drain(40)
+    except HarnessError as e:
+        # a call did not come back / the link does not settle: no spec action matches -> the trace is rejected here
+        R.ev.append(dict(a="Blocked", what=str(e)))
     finally:
         R.finish()
     return dict(id="%s-%d" % (klass, seed), const=dict(miu=miu, agf=agf), ev=R.ev)
@@ -555,20 +596,6 @@ def selftest_traces(traces):
             break
     t2["id"] = src["id"] + "-dropped"
     return [t1, t2]
-
-
-def remainder(tr, line):
-    """The events after the rejected one, from the next Collect on, as a trace of its own."""
-    ev = tr["ev"]
-    k = line
-    while k < len(ev) and ev[k]["a"] != "Collect":
-        k += 1
-    if k >= len(ev):
-        return None
-    rest = json.loads(json.dumps(ev[k:]))
-    rest[0]["cont"] = False
-    return dict(id="%s~%d" % (tr["id"].split("~")[0], (int(tr["id"].split("~")[1]) if "~" in tr["id"] else 0) + k),
-                const=tr["const"], ev=rest)
 
 
 def classify(tr, line, act, why):
